@@ -101,8 +101,19 @@ func (i *seqIterator) Next() bool {
 			i.Seq = nil
 			return true
 		}
-		i.Seq = s.Arg(1)
-		i.current = s.Arg(0)
+		// A conjunction is transparent to cut (ISO 7.8.5), so a left-nested conjunction
+		// ((A, B), C) is the sequence A, B, C and not a call of ','/2: rotate it to
+		// (A, (B, C)) until the first conjunct is not itself a conjunction.
+		first, rest := s.Arg(0), s.Arg(1)
+		for {
+			l, ok := i.Env.Resolve(first).(Compound)
+			if !ok || l.Functor() != atomComma || l.Arity() != 2 {
+				break
+			}
+			first, rest = l.Arg(0), atomComma.Apply(l.Arg(1), rest)
+		}
+		i.Seq = rest
+		i.current = first
 		return true
 	default:
 		i.current = s
